@@ -154,7 +154,14 @@ func readerEntry(req isolate.Req) (resp isolate.Resp) {
 	}()
 	var rd *mcap.Reader
 	var err error
-	meter.Do(func() { rd, err = mcap.NewReader(bytes.NewReader(req.Input)) })
+	// opts bit 64: the source cannot seek (a pipe, a network stream): every call must still return
+	source := func() io.Reader {
+		if req.Opts&64 != 0 {
+			return struct{ io.Reader }{bytes.NewReader(req.Input)}
+		}
+		return bytes.NewReader(req.Input)
+	}
+	meter.Do(func() { rd, err = mcap.NewReader(source()) })
 	if err != nil {
 		return isolate.Resp{Text: errText(err)}
 	}
@@ -218,7 +225,7 @@ func readerEntry(req isolate.Req) (resp isolate.Resp) {
 	}
 	// random access
 	var rd2 *mcap.Reader
-	meter.Do(func() { rd2, err = mcap.NewReader(bytes.NewReader(req.Input)) })
+	meter.Do(func() { rd2, err = mcap.NewReader(source()) })
 	if err == nil {
 		defer rd2.Close()
 		var offs []uint64
@@ -543,7 +550,7 @@ func genC10(t *rapid.T) C10Case {
 		}
 		c.Opts &^= loSkipMagic
 	case entryReader:
-		c.Opts = rapid.Uint32Range(0, 63).Draw(t, "reader-opts")
+		c.Opts = rapid.Uint32Range(0, 127).Draw(t, "reader-opts")
 		c.Aux = rapid.SampledFrom([]uint64{0, 1, 8, 9, 1 << 31, 1<<63 - 10, 1<<63 - 9, 1<<64 - 9, 1<<64 - 1, 100, 1000}).Draw(t, "hostile-offset")
 	case entryParse:
 		c.Aux = uint64(rapid.IntRange(0, len(parserNames)-1).Draw(t, "parser"))
@@ -744,7 +751,7 @@ var sweepEntries = []struct {
 }{
 	{entryLexer, 0, 0}, {entryLexer, loValidate, 0}, {entryLexer, loNoCallback, 0}, {entryLexer, loNoCallback | loValidate | loEmitInvalid, 0}, {entryLexer, loEmitChunks, 0},
 	{entryLexer, loValidate | loLimit1K | loAttCRC, 0},
-	{entryReader, 0, 9}, {entryReader, 1 | 16, 1<<64 - 9}, {entryReader, 2 | 4 | 8, 0}, {entryReader, 3 | 16, 1 << 63},
+	{entryReader, 0, 9}, {entryReader, 1 | 16, 1<<64 - 9}, {entryReader, 2 | 4 | 8, 0}, {entryReader, 3 | 16, 1 << 63}, {entryReader, 3 | 64, 0}, {entryReader, 64, 9},
 }
 
 func sweepValue(idx int, old uint64, width int, fileLen uint64, recOffsets []uint64) (uint64, bool) {
@@ -858,6 +865,11 @@ type C10Bomb struct {
 	Declared uint64 // the chunk's uncompressed_size field
 	Real     int    // bytes the frame really decodes to (zeros)
 	Opts     uint32
+	// Reader: the file carries a summary (channel, chunk index) and is read through NewReader/Messages with
+	// Opts as reader options; ClaimFCS != 0: the zstd frame is hand-built, empty, with a Frame_Content_Size
+	// field claiming that many bytes.
+	Reader   bool   `json:",omitempty"`
+	ClaimFCS uint64 `json:",omitempty"`
 }
 
 func bombFile(c C10Bomb) ([]byte, error) {
@@ -882,12 +894,31 @@ func bombFile(c C10Bomb) ([]byte, error) {
 		payload = e.EncodeAll(zeros, nil)
 		e.Close()
 	}
+	if c.ClaimFCS != 0 {
+		// zstd magic; descriptor 0xC0 = 8-byte Frame_Content_Size, not single-segment; window descriptor
+		// (1 KiB); the claimed size; one last, raw, empty block
+		payload = append([]byte{0x28, 0xB5, 0x2F, 0xFD, 0xC0, 0x00}, binary.LittleEndian.AppendUint64(nil, c.ClaimFCS)...)
+		payload = append(payload, 0x01, 0x00, 0x00)
+	}
 	b := &specenc.Builder{}
 	b.Magic()
 	b.Header("", "bomb")
-	b.Chunk(specenc.ChunkHdr{UncompressedSize: c.Declared, Compression: c.Codec, CRC: 0x12345678}, payload)
+	hdr := specenc.ChunkHdr{UncompressedSize: c.Declared, Compression: c.Codec, CRC: 0x12345678, Start: 0, End: 10}
+	if c.Reader {
+		hdr.CRC = 0
+	}
+	off := b.Len()
+	length := b.Chunk(hdr, payload)
 	b.DataEnd(0)
-	b.Footer(0, 0, 0)
+	if !c.Reader {
+		b.Footer(0, 0, 0)
+		b.Magic()
+		return b.Buf, nil
+	}
+	summaryStart := b.Len()
+	b.Channel(&wl.Channel{ID: 1, Topic: "t"})
+	b.ChunkIndex(&specenc.ChunkIndex{Start: 0, End: 10, Offset: off, Length: length, Compression: c.Codec, CompressedSize: uint64(len(payload)), UncompressedSize: c.Declared})
+	b.Footer(summaryStart, 0, 0)
 	b.Magic()
 	return b.Buf, nil
 }
@@ -907,6 +938,20 @@ func enumC10Bombs(yield func(C10Bomb) bool) {
 			}
 		}
 	}
+	// the index-based reader: a zstd frame header that claims 5 GiB of content (the chunk declares none), and a
+	// frame that decodes to 64 MiB where the chunk declares 100 bytes; file order and log-time order
+	for _, bomb := range []C10Bomb{{Codec: "zstd", Declared: 0, Real: 0, ClaimFCS: 5 << 30, Reader: true}, {Codec: "zstd", Declared: 100, Real: 64 << 20, Reader: true},
+		{Codec: "lz4", Declared: 100, Real: 64 << 20, Reader: true}} {
+		for _, opts := range []uint32{0, 1} {
+			if i%n == sh {
+				bomb.Opts = opts
+				if !yield(bomb) {
+					return
+				}
+			}
+			i++
+		}
+	}
 }
 
 func checkC10Bomb(c C10Bomb, st *stats.Collector) error {
@@ -914,11 +959,21 @@ func checkC10Bomb(c C10Bomb, st *stats.Collector) error {
 	if err != nil {
 		return pk.Failf("harness", "cannot build the bomb: %v", err)
 	}
-	o := worker().Call(isolate.Req{Entry: entryLexer, Opts: c.Opts, Input: input}, 60*time.Second, 900*time.Second)
+	entry := uint16(entryLexer)
+	if c.Reader {
+		entry = entryReader
+	}
+	o := worker().Call(isolate.Req{Entry: entry, Opts: c.Opts, Input: input}, 60*time.Second, 900*time.Second)
 	rec, chunk := limitsOf(c.Opts)
 	// what the codec itself may need for one block/window of this frame, plus the configured limits
 	ceiling := 4*(uint64(rec)+2*uint64(chunk)) + 1<<20 + 64*uint64(len(input)) + 24<<20
 	label := fmt.Sprintf("lexer(opts=%08b, MaxDecompressedChunkSize=%d) on a %d-byte file whose %s chunk declares %d uncompressed bytes and decodes to %d", c.Opts, chunk, len(input), c.Codec, c.Declared, c.Real)
+	if c.Reader {
+		// the Reader has no configurable limits: what bounds a chunk buffer is the size the chunk declares
+		// (checked against the 2 GiB ceiling by makeSafe), plus the codec's own working memory
+		ceiling = 4*c.Declared + 1<<20 + 64*uint64(len(input)) + 24<<20
+		label = fmt.Sprintf("reader(opts=%06b) on a %d-byte indexed file whose %s chunk declares %d uncompressed bytes; the frame decodes to %d bytes and its header claims %d", c.Opts, len(input), c.Codec, c.Declared, c.Real, c.ClaimFCS)
+	}
 	if err := judgeHostile("C10", label, o, ceiling); err != nil {
 		return err
 	}
